@@ -92,3 +92,53 @@ contract(M, 'dfa_to_regexp', {'D': 'DFA'}, returns='Regexp', requires=['dfa_wf(D
          ensures=['all(mem(w, L(result)) == (over(D.Sigma, w) and dfa_accepts(D, w)) for w in allwords())'],
          theories=['word', 'wordx', 'dfa', 'regexp', 'gnfa'], props=['C06', 'C19'], symbol_is_regexp=True,
          note='the extracted regular expression denotes exactly the language of D, whatever order the states are eliminated in (contracts of dfa_to_gnfa and gnfa_minimize)')
+
+# ---------------------------------------------------------------------------------------------- C06: regexp -> NFA (Thompson-style generator)
+# The generator object keeps ONE mutable alphabet set and hands that very object to every leaf NFA it builds (result_shares): an NFA obtained
+# earlier may see its alphabet grow when a later symbol is generated.  The postcondition is therefore stated so that it is stable under such
+# growth: validity (monotone in the alphabet as long as the empty string stays out of it), state names, and acceptance of words that do not
+# contain the epsilon symbol -- none of which depends on the exact alphabet.
+_E = 'eps0()'
+_SH = {'Sigma': 'self.Sigma'}
+_NAMEDQ = "all(implies(s in result.Q, any(old(self.id_generator.index) <= j and j < self.id_generator.index and s == hint_index_name('q', j) for j in ints())) for s in atoms())"
+def _GENPOST(x):
+    return ['nfa_wf(result)', 'result.epsilon == %s' % _E, _NAMEDQ, 'self.id_generator.index >= old(self.id_generator.index)',
+            'old(self.Sigma) <= self.Sigma', 'result.Sigma <= self.Sigma', 'syms(%s) <= result.Sigma' % x, '%s not in self.Sigma' % _E,
+            'lang_agrees(result, %s)' % x]        # result accepts exactly the epsilon-free words of L(x) (opaque name; definition lang_agrees-def)
+_GENPRE = ['%s not in self.Sigma' % _E]
+contract(M, 'RegexpToNFAGenerator.__init__', {'self': 'RxGen'}, returns='None', modifies=['self'],
+         ensures=['self.Sigma == set_empty()', 'self.id_generator.index == 0'], types={}, theories=['naming'], props=['C06'])
+contract(M, 'RegexpToNFAGenerator.fresh_state', {'self': 'RxGen'}, returns='State', modifies=['self'],
+         ensures=["result == hint_index_name('q', old(self.id_generator.index))", 'self.id_generator.index == old(self.id_generator.index) + 1', 'self.Sigma == old(self.Sigma)'],
+         theories=['naming'], props=['C06'])
+contract(M, 'RegexpToNFAGenerator.generate_zero', {'self': 'RxGen'}, returns='NFA', modifies=['self'], requires=_GENPRE, ensures=_GENPOST('Zero()'),
+         asserts=['all(not nfa_acc(result, w) for w in allwords())', 'all(implies(noeps(%s, w), nfa_acc(result, w) == mem(w, L(Zero()))) for w in allwords())' % _E],
+         result_shares=_SH, types={'delta': 'Map[(State,Symbol),Set[State],default=set]', 'F': 'Set[State]'},
+         theories=['word', 'wordx', 'naming', 'nfa', 'nfax', 'regexp', 'nfastar', 'thompson'], props=['C06'], symbol_is_regexp=True)
+contract(M, 'RegexpToNFAGenerator.generate_one', {'self': 'RxGen'}, returns='NFA', modifies=['self'], requires=_GENPRE, ensures=_GENPOST('One()'),
+         asserts=['all(y not in step(result, q, b) for q in atoms() for b in atoms() for y in atoms())',
+                  'all(Nhat(result, w) == ({q0} if w == nil() else set_empty()) for w in allwords())',
+                  'all(nfa_acc(result, w) == (w == nil()) for w in allwords())',
+                  'all(implies(noeps(%s, w), nfa_acc(result, w) == mem(w, L(One()))) for w in allwords())' % _E],
+         result_shares=_SH, types={'delta': 'Map[(State,Symbol),Set[State],default=set]'},
+         theories=['word', 'wordx', 'naming', 'nfa', 'nfax', 'regexp', 'nfastar', 'thompson'], props=['C06'], symbol_is_regexp=True)
+contract(M, 'RegexpToNFAGenerator.generate_symbol', {'self': 'RxGen', 'x': 'Regexp'}, returns='NFA', modifies=['self'],
+         requires=_GENPRE + ['is_sym(x)', 'x.symbol != %s' % _E], ensures=_GENPOST('x'),
+         asserts=['q0 != q1', 'all((y in step(result, q, b)) == (q == q0 and b == x.symbol and y == q1) for q in atoms() for b in atoms() for y in atoms())',
+                  'all(Nhat(result, w) == ({q0} if w == nil() else ({q1} if w == single(x.symbol) else set_empty())) for w in allwords())',
+                  'all(nfa_acc(result, w) == (w == single(x.symbol)) for w in allwords())',
+                  'all(implies(noeps(%s, w), nfa_acc(result, w) == mem(w, L(x))) for w in allwords())' % _E],
+         result_shares=_SH, types={'delta': 'Map[(State,Symbol),Set[State],default=set]'},
+         theories=['word', 'wordx', 'naming', 'nfa', 'nfax', 'regexp', 'nfastar', 'thompson'], props=['C06'], symbol_is_regexp=True)
+contract(M, 'RegexpToNFAGenerator.generate', {'self': 'RxGen', 'x': 'Regexp'}, returns='NFA', modifies=['self'],
+         requires=_GENPRE + ['%s not in syms(x)' % _E], ensures=_GENPOST('x'), decreases=['rnodes(x)'],
+         result_shares=_SH,
+         theories=['word', 'wordx', 'naming', 'nfa', 'nfax', 'regexp', 'nfastar', 'thompson'], props=['C06'], symbol_is_regexp=True,
+         note='structural recursion; the three constructions are used through their contracts (C18), the alphabet-free corollaries union-free / cat-free / star-free '
+              'turn their language statements into statements about acceptance of epsilon-free words')
+contract(M, 'regexp_to_nfa', {'x': 'Regexp'}, returns='NFA', requires=['%s not in syms(x)' % _E],
+         ensures=['nfa_wf(result)', 'all(implies(over(result.Sigma, w), nfa_accepts(result, w) == mem(w, L(x))) for w in allwords())',
+                  'all(implies(mem(w, L(x)), over(result.Sigma, w)) for w in allwords())'],
+         asserts=['all(implies(over(result.Sigma, w), nfa_acc(result, w) == mem(w, L(x))) for w in allwords())', 'all(nfa_acc(result, w) == nfa_accepts(result, w) for w in allwords())'],
+         theories=['word', 'wordx', 'naming', 'nfa', 'nfax', 'regexp', 'nfastar', 'thompson'], props=['C06', 'C19'], symbol_is_regexp=True,
+         note='the constructed NFA is valid and accepts exactly the denoted language (every word of the language is over its alphabet)')
